@@ -672,6 +672,29 @@ def run_hist(script, judge=None):
         elif op == "obs":
             val = env[st["g"]]
             out.append(gr_ord_obs(val))
+        elif op == "r2g":
+            from synkit.IO.chem_converter import rsmi_to_graph
+            kw = {}
+            if st.get("attrs") is not None:
+                kw["node_attrs"] = None if st["attrs"] == "ALL" else list(st["attrs"])
+            if st.get("eattrs") is not None:
+                kw["edge_attrs"] = None if st["eattrs"] == "ALL" else list(st["eattrs"])
+            r, p = rsmi_to_graph(st["rsmi"], **kw)
+            val = (r, p)
+            out.append([gr_ord_obs(r), gr_ord_obs(p)])
+        elif op in ("smart", "its2gml"):
+            from synkit.IO.chem_converter import smart_to_gml, its_to_gml, rsmi_to_its
+            core, reindex, eh = st["cfg"]
+            if op == "smart":
+                text = smart_to_gml(st["rsmi"], core=core, reindex=reindex, explicit_hydrogen=eh)
+            else:
+                its = rsmi_to_its(st["rsmi"])
+                before = gr_ord_obs(its)
+                text = its_to_gml(its, core=core, reindex=reindex, explicit_hydrogen=eh)
+                if gr_ord_obs(its) != before:
+                    text = "MUTATED-INPUT\n" + text
+            val = text
+            out.append([rec_obs(text_to_rec(text)), parsed_obs(text)])
         elif op == "conv":      # ONE MolToGraph object and ONE GraphToMol object reused on a sequence of molecules
             from rdkit import Chem
             from synkit.IO.mol_to_graph import MolToGraph
@@ -753,6 +776,25 @@ def coq_hist(script):
             outs.append("t_gr %s" % v)
         elif op == "obs":
             outs.append("t_gr_ord %s" % env[st["g"]])
+        elif op == "r2g":
+            sel, ko = _enc_asel(st)
+            rs, ps = st["rsmi"].split(">>")
+            outs.append("L [t_gr_ord (mol_to_graph_sel %s true true %s %s); t_gr_ord (mol_to_graph_sel %s true true %s %s)]"
+                        % (mvar(rs), sel, ko, mvar(ps), sel, ko))
+        elif op in ("smart", "its2gml"):
+            x = rxn_graphs(st["rsmi"])
+            if x is None:
+                raise Outside("reaction")
+            rs, ps = st["rsmi"].split(">>")
+            eo = clist(["(%s, %s)" % (cN(u), cN(v)) for u, v in x[2]])
+            core, reindex, eh = st["cfg"]
+            r_, p_ = "(mol_to_graph %s true true)" % mvar(rs), "(mol_to_graph %s true true)" % mvar(ps)
+            if op == "smart":
+                outs.append("(let rec := smart_to_gml %s %s %s %s %s %s in L [t_rec rec; t_parsed (gml_to_nx rec)])"
+                            % (r_, p_, eo, cbool(core), cbool(reindex), cbool(eh)))
+            else:
+                outs.append("(let rec := its_to_gml (its_construct %s %s %s) %s %s %s in L [t_rec rec; t_parsed (gml_to_nx rec)])"
+                            % (r_, p_, eo, cbool(core), cbool(reindex), cbool(eh)))
         elif op == "conv":
             outs.append("L [%s]" % "; ".join("(let g := mol_to_graph %s false false in L [t_gr_ord g; t_wmol (graph_to_mol g)])" % mvar(smi)
                                            for smi in st["smiles"]))
@@ -810,6 +852,48 @@ def _vs_ref(G, ref, keep, ko):
     return None
 
 
+
+def _ref_rule(rsmi):
+    """the reaction-centre rule of a mapped reaction computed from RDKit alone, as a labelled structure comparable with
+    _rule_struct: centre = bonds whose order changes (+ bonds between two hydrogens); None outside the property's domain
+    (unparsable, radicals, not atom-balanced on the mapped atoms, repeated map numbers)"""
+    try:
+        rs, ps = rsmi.split(">>")
+    except ValueError:
+        return None
+    a, b = _ref_graph(rs, True, True, set(_KNOWN), True), _ref_graph(ps, True, True, set(_KNOWN), True)
+    if a is None or b is None:
+        return None
+    (na, ea), (nb, eb) = a, b
+    if set(na) != set(nb) or any(na[n]["element"] != nb[n]["element"] for n in na):
+        return None
+    from rdkit import Chem
+    for side, nn in ((rs, na), (ps, nb)):
+        mol = Chem.MolFromSmiles(side, sanitize=False)
+        maps = [x.GetAtomMapNum() for x in mol.GetAtoms() if x.GetAtomMapNum()]
+        if len(maps) != len(set(maps)):
+            return None
+    lab = {1.0: "-", 1.5: ":", 2.0: "=", 3.0: "#"}
+    centre = [k for k in set(ea) | set(eb)
+              if ea.get(k, 0) != eb.get(k, 0) or all(na[n]["element"] == "H" for n in k)]
+    cn = set(n for k in centre for n in k)
+    nodes = {n: set() for n in cn}
+    edges = {}
+    for k in centre:
+        for sec, e in ((0, ea), (2, eb)):
+            if e.get(k, 0):
+                edges.setdefault(k, set()).add((sec, lab.get(float(e[k]), "-")))
+    def cs(c):
+        return "" if c == 0 else ("+" if c == 1 else "-" if c == -1 else ("%d+" % c if c > 0 else "%d-" % -c))
+    for n in cn:
+        if na[n]["charge"] == nb[n]["charge"]:
+            nodes[n].add((1, na[n]["element"] + cs(na[n]["charge"])))
+        else:
+            nodes[n].add((0, na[n]["element"] + cs(na[n]["charge"])))
+            nodes[n].add((2, nb[n]["element"] + cs(nb[n]["charge"])))
+    return {k: frozenset(v) for k, v in nodes.items()}, {k: frozenset(v) for k, v in edges.items()}
+
+
 def _oracle_hist(case):
     from rdkit import Chem
     from synkit.IO.chem_converter import graph_to_smi
@@ -856,6 +940,29 @@ def _oracle_hist(case):
                 if _heavy_skeleton(val) != _heavy_skeleton(src):
                     fails.append(_fail("H-molecule", "%s: heavy atoms / bonds changed" % tag))
             last_obs[st["as"]] = gr_ord_obs(val)
+        elif op == "r2g":
+            keep, ko = _sel_of(st)
+            for side, G in zip(st["rsmi"].split(">>"), val):
+                ref = _ref_graph(side, True, True, keep, ko)
+                if ref is not None:
+                    why = _vs_ref(G, ref, keep, ko)
+                    if why:
+                        fails.append(_fail("smiles-graph", "%s: rsmi_to_graph side %r with node_attrs=%r: %s" % (tag, side, st.get("attrs"), why)))
+        elif op in ("smart", "its2gml"):
+            core, reindex, eh = st["cfg"]
+            if val.startswith("MUTATED-INPUT"):
+                fails.append(_fail("no-hidden-mutation", "%s: its_to_gml changed the ITS graph it was given" % tag))
+            rec = text_to_rec(val.replace("MUTATED-INPUT\n", ""))
+            want = _ref_rule(st["rsmi"]) if (core and not eh) else None
+            if rec is None:
+                fails.append(_fail("gml-text", "%s: output is not of the documented line format" % tag))
+            elif want is not None:
+                got = _rule_struct(rec)
+                ok = _iso_struct(got, want) if reindex else (got == want)
+                if not ok:
+                    fails.append(_fail("gml-two-routes", "%s: the rule written for %r (core=True, reindex=%s) after the earlier steps of the "
+                                       "history is not the reaction-centre rule of the reaction (%d nodes / %d edges, expected %d / %d)"
+                                       % (tag, st["rsmi"][:70], reindex, len(got[0]), len(got[1]), len(want[0]), len(want[1]))))
         elif op == "conv":
             for smi, G in val:
                 ref = _ref_graph(smi, False, False, set(_KNOWN), True)
@@ -1485,8 +1592,27 @@ def _hist_scripts(smi, other):
     ]
 
 
+def _rxn_hist_scripts(rsmi):
+    return [
+        ("rxn-reduced-then-rule", [dict(op="r2g", rsmi=rsmi, attrs=["element"]), dict(op="smart", rsmi=rsmi, cfg=[True, False, False]),
+                                   dict(op="its2gml", rsmi=rsmi, cfg=[True, True, False]), dict(op="r2g", rsmi=rsmi)]),
+        ("rxn-rules-in-sequence", [dict(op="smart", rsmi=rsmi, cfg=[True, True, False]), dict(op="smart", rsmi=rsmi, cfg=[True, False, True]),
+                                   dict(op="its2gml", rsmi=rsmi, cfg=[False, False, False]), dict(op="smart", rsmi=rsmi, cfg=[True, False, False]),
+                                   dict(op="its2gml", rsmi=rsmi, cfg=[True, False, False]), dict(op="r2g", rsmi=rsmi, attrs=["charge", "element", "atom_map"], eattrs=[])]),
+    ]
+
+
 def _hist_cases(quick, rng):
     out = []
+    corpus = _corpus()
+    pick = sorted(rng.sample(range(len(corpus)), 8 if quick else 60))
+    rx = ["[CH3:1][Cl:2].[OH-:3]>>[CH3:1][OH:3].[Cl-:2]", "[CH3:10][N:11]([CH3:12])[CH3:13].[CH3:14][I:15]>>[CH3:10][N+:11]([CH3:12])([CH3:13])[CH3:14].[I-:15]",
+          "[O:1]=[C:2]([OH:3])[CH3:4].[Na+:5].[OH-:6]>>[O:1]=[C:2]([O-:3])[CH3:4].[Na+:5].[OH2:6]"] + [corpus[i][2] for i in pick]
+    for j, r in enumerate(rx):
+        if rxn_graphs(r) is None:
+            continue
+        for nm, script in _rxn_hist_scripts(r):
+            out.append(dict(kind="hist", script=script, name="hist/%s/%d" % (nm, j)))
     pool = HIST_POOL if not quick else HIST_POOL   # small and cheap: the whole pool in both tiers
     for j, smi in enumerate(pool):
         rec = mol_record(smi)
